@@ -266,6 +266,10 @@ func (c *connection) Flush() error {
 	}
 
 	if !c.lock(flushing) {
+		// the lock is also taken for good when the connection is closed
+		if !c.IsActive() {
+			return Exception(ErrConnClosed, "when flush")
+		}
 		return Exception(ErrConcurrentAccess, "when flush")
 	}
 	defer c.unlock(flushing)
@@ -342,6 +346,10 @@ func (c *connection) Write(p []byte) (n int, err error) {
 	}
 
 	if !c.lock(flushing) {
+		// the lock is also taken for good when the connection is closed
+		if !c.IsActive() {
+			return 0, Exception(ErrConnClosed, "when write")
+		}
 		return 0, Exception(ErrConcurrentAccess, "when write")
 	}
 	defer c.unlock(flushing)
